@@ -344,3 +344,45 @@ Fixpoint spec_img (t : fty) (v : fval) : list N :=
   | TPair a b => match v with VPair x y => spec_img a x ++ spec_img b y | _ => [] end
   | TUnit => []
   end.
+
+(* ------------------------------------------------------------------ NBTField (types.go) *)
+(* The NBT codec itself belongs to C01/C02: here the decoder behind nbt.Decoder.Decode is ANY reader `d`
+   and the encoder output is ANY list of Write calls.  What is modelled is what NBTField adds:
+   - ReadFrom: the decoder reads through a countingReader (the count returned is the number of bytes the
+     decoder consumed, on the ok path AND on the error paths), and an error that `errors.Is` nbt.ErrEND
+     (class eEND; raised anywhere inside the decode) is turned into success at that point (value None:
+     the destination is left as the decoder left it);
+   - WriteTo: a nil value is the single byte TagEnd = 0; otherwise the encoder writes through a
+     countingWriter and the count returned is the sum of the sizes of its Write calls. *)
+Fixpoint catch_end (eEND : N) {A} (d : dec A) : dec (option A) :=
+  match d with
+  | Ret a => Ret (Some a)
+  | Fail e => if e =? eEND then Ret None else Fail e
+  | Crash w => Crash w
+  | NoFuel => NoFuel
+  | ReadByte k => ReadByte (fun b => catch_end eEND (k b))
+  | ReadFull n k => ReadFull n (fun bs => catch_end eEND (k bs))
+  | RawRead n k => RawRead n (fun bs => catch_end eEND (k bs))
+  end.
+(* countingReader: c.n += n after every Read; through ReadByte / ReadFull effects exactly the bytes
+   delivered (a bare Read is counted by the size asked for: the theorems are about robust decoders) *)
+Fixpoint counting {A} (d : dec A) (n : N) : dec (A * N) :=
+  match d with
+  | Ret a => Ret (a, n)
+  | Fail e => Fail e
+  | Crash w => Crash w
+  | NoFuel => NoFuel
+  | ReadByte k => ReadByte (fun b => counting (k b) (n + 1))
+  | ReadFull m k => ReadFull m (fun bs => counting (k bs) (n + m))
+  | RawRead m k => RawRead m (fun bs => counting (k bs) (n + m))
+  end.
+Definition r_nbtfield (eEND : N) {A} (d : dec A) : dec (option A * N) := counting (catch_end eEND d) 0.
+
+(* countingWriter *)
+Definition w_counted (ws : list (list N)) : wres :=
+  fold_left (fun acc p => (fst acc ++ p, snd acc + lenN p)) ws ([], 0).
+Definition w_nbtfield (enc : option (list (list N))) : wres :=
+  match enc with
+  | None => wbytes [0]                     (* n.V == nil: w.Write([]byte{nbt.TagEnd}) *)
+  | Some ws => w_counted ws
+  end.
